@@ -49,7 +49,15 @@ def make_scenarios(ctx, n):
             for k, which in enumerate([0, 1, 2, 0, 1]):
                 t1["c"][f"q{k}"] = {"k": "f", "data": big[which].hex(), "mode": 0o644, "mtime": 10**18 + 200 + k}
             o1 = dict(o1, sfc=1 << 20, mbs=size + size // 2)
-        out.append({"id": f"S{i}", "t0": t0, "o0": scen.small_opts(ctx.rng), "t1": t1, "o1": o1})
+        o0 = scen.small_opts(ctx.rng)
+        if i % 2 == 1 and t0 is not None:
+            # the earlier version holds the same multi-block files with another LAST block (stored with the same block size):
+            # their leading blocks are already in the archive when the faulted backup reaches them
+            o0 = dict(o1)
+            for nm in ("multi3", "multi4"):
+                d = bytes.fromhex(t1["c"][nm]["data"])
+                t0["c"][nm] = dict(t1["c"][nm], data=(d[:-o1["mbs"] + 1] + bytes(ctx.rng.randrange(1, 255) for _ in range(o1["mbs"] - 1))).hex(), mtime=10**18 + 299)
+        out.append({"id": f"S{i}", "t0": t0, "o0": o0, "t1": t1, "o1": o1})
     return out
 
 
